@@ -93,12 +93,13 @@ def xform_case(draw, max_dim):
 
 
 def vr_case(max_dim):
-    return st.builds(lambda img, W, H, kind, aspect, interp: {'img': img, 'kind': kind, 'W': W, 'H': H, 'aspect': aspect, 'interp': interp},
+    return st.builds(lambda img, W, H, kind, aspect, interp, more: {'img': img, 'kind': kind, 'W': W, 'H': H, 'aspect': aspect, 'interp': interp, 'more': [list(m) for m in more]},
                      gen.image_spec(max_dim=max_dim, formats=('GRAY', 'BGR'), layouts=('contig',), extra_dims=(100, 101, 640), max_pixels=600_000),
                      st.one_of(st.integers(1, 1200), st.sampled_from([1, 2, 3, 100, 101, 640])),
                      st.one_of(st.integers(1, 1200), st.sampled_from([1, 2, 3, 100, 101, 480])),
                      st.sampled_from(['maxsize', 'resize']), st.sampled_from(['x', '+']),
-                     st.sampled_from([None, 'n', 'lin', 'cub', 'C']))
+                     st.sampled_from([None, 'n', 'lin', 'cub', 'C']),
+                     st.lists(st.tuples(st.integers(1, 400), st.integers(1, 400)), max_size=2))
 
 
 # ---------------------------------------------------------------------------------------------------------------------
@@ -294,15 +295,15 @@ def run_xform(case):
 
 
 class _FakeGear:
-    def __init__(self, image):
-        self.image = image
+    def __init__(self, images):
+        self.images = list(images)
         self.stream = type('S', (), {'framerate': 30.0})()
         self.n = 0
     def start(self): return self
     def stop(self): pass
     def read(self):
         self.n += 1
-        return self.image if self.n == 1 else None
+        return self.images[self.n - 1] if self.n <= len(self.images) else None
 
 
 def run_video(case):
@@ -310,10 +311,12 @@ def run_video(case):
     import sys
     import types
     np, video_in = _U['np'], _U['video_in']
-    img = gen.build_image({**case['img'], 'rw': True})
+    # a stream may change its frame size (reconnect at another resolution, mode switch): every frame obeys the laws for its own size
+    imgs = [gen.build_image({**case['img'], 'rw': True})] + [gen.build_image({**case['img'], 'rw': True, 'h': hh, 'w': ww}) for hh, ww in case.get('more', [])]
+    img = imgs[0]
     h, w = img.shape[:2]
     fake_mod = types.ModuleType('vidgear.gears')
-    fake_mod.VideoGear = lambda source=None, **kw: _FakeGear(img)
+    fake_mod.VideoGear = lambda source=None, **kw: _FakeGear(imgs)
     saved = {k: sys.modules.get(k) for k in ('vidgear', 'vidgear.gears')}
     sys.modules['vidgear'] = types.ModuleType('vidgear')
     sys.modules['vidgear'].gears = fake_mod
@@ -329,7 +332,9 @@ def run_video(case):
         class Collect:
             def append(self, item):
                 got.append(item)
-                r.stop_evt.set()
+                if len(got) >= len(imgs):
+                    r.stop_evt.set()
+                r.sync_evt.set()        # the consumer has taken the frame: the reader may fetch the next one
         r.deque = Collect()
         r.stream.start()
         try:
@@ -343,14 +348,18 @@ def run_video(case):
                 sys.modules.pop(k, None)
             else:
                 sys.modules[k] = v
-    if not got or got[0][0] is None:
-        return bad('video reader delivered no frame', 'video-noframe')
-    out = got[0][0]
+    frames = [g[0] for g in got if g[0] is not None]
+    if len(frames) != len(imgs):
+        return bad(f'video reader delivered {len(frames)} of {len(imgs)} frames', 'video-noframe')
+    for idx, (src_img, out) in enumerate(zip(imgs, frames)):
+        hi, wi = src_img.shape[:2]
+        h2, w2 = out.shape[:2]
+        if (msg := size_law(case['kind'], case['aspect'], wi, hi, case['W'], case['H'], w2, h2, video=True)) is not None:
+            return bad(f'video reader (frame {idx} of the stream): ' + msg, f'size:video-{case["kind"]}:{case["aspect"]}' + (':later-frame' if idx else ''))
+        if (w2, h2) == (wi, hi) and not np.array_equal(out, src_img):
+            return bad('video reader altered pixels without resizing', 'video-pixels')
+    out = frames[0]
     h2, w2 = out.shape[:2]
-    if (msg := size_law(case['kind'], case['aspect'], w, h, case['W'], case['H'], w2, h2, video=True)) is not None:
-        return bad('video reader: ' + msg, f'size:video-{case["kind"]}:{case["aspect"]}')
-    if (w2, h2) == (w, h) and not np.array_equal(out, img):
-        return bad('video reader altered pixels without resizing', 'video-pixels')
     cl = classes_for_size(w, h, case['W'], case['H'], w2, h2) + [f'video {case["kind"]}{case["aspect"]}']
     return ok((w2, h2) != (w, h) or bool(cl[:-1]), cl, {'in': f'{w}x{h}', 'out': f'{w2}x{h2}'})
 
